@@ -45,8 +45,8 @@ type Case struct {
 	// Nils (s1, consumers that range only): after every second item a
 	// producer also pushes nil - an ordinary item, which only range can tell
 	// from "closed"
-	Nils bool `json:"nils,omitempty"`
-	Chunk    int  `json:"chunk,omitempty"`
+	Nils  bool `json:"nils,omitempty"`
+	Chunk int  `json:"chunk,omitempty"`
 	// s2 / s3
 	R     int      `json:"r,omitempty"`
 	Iter  int      `json:"iter,omitempty"`
@@ -61,15 +61,21 @@ type Case struct {
 	// s4
 	Work []string `json:"work,omitempty"` // per routine: defvar | defun | generic | print | lambda
 	// schedule
-	Policy      string   `json:"policy"`
-	SwitchPct   int      `json:"switch_pct"`
-	YieldPct    int      `json:"yield_pct"`
-	PCTDepth    int      `json:"pct_depth,omitempty"`
-	TimeJumpPct int      `json:"time_jump_pct,omitempty"`
-	Salt        uint64   `json:"salt"`
-	TapeSeed    uint64   `json:"tape_seed"`
-	Tape        []uint32 `json:"tape,omitempty"`
-	Replay      bool     `json:"replay,omitempty"`
+	Policy      string `json:"policy"`
+	SwitchPct   int    `json:"switch_pct"`
+	YieldPct    int    `json:"yield_pct"`
+	PCTDepth    int    `json:"pct_depth,omitempty"`
+	TimeJumpPct int    `json:"time_jump_pct,omitempty"`
+	// Procs: the number of processors the program sees (rule R11), 0 = the
+	// real one
+	Procs int `json:"procs,omitempty"`
+	// ConsFirst (s1): the consumers and the closer are started before the
+	// producers they wait for
+	ConsFirst bool     `json:"cons_first,omitempty"`
+	Salt      uint64   `json:"salt"`
+	TapeSeed  uint64   `json:"tape_seed"`
+	Tape      []uint32 `json:"tape,omitempty"`
+	Replay    bool     `json:"replay,omitempty"`
 	// KnownRaces names the Go maps whose unordered accesses are listed as
 	// known findings (class "map-race:<map>"); races on them are counted,
 	// not reported, so that they cannot hide a race on another map.
@@ -135,6 +141,13 @@ func (e *engine) Generate(seed uint64, idx int, tier string, avoid []harness.Fin
 		}
 		c.Cap = []int{0, 0, 1, 2, 4, 16}[r.Intn(6)]
 		nc := 1 + r.Intn(3)
+		if r.Pct(25) {
+			nc = 3 + r.Intn(3) // with the closer: up to 8 routines with the producers
+			if c.P > 2 {
+				c.P = 2
+			}
+		}
+		c.ConsFirst = r.Pct(40)
 		for i := 0; i < nc; i++ {
 			c.Cons = append(c.Cons, []string{"range", "pop", "select", "select-tick", "select-many", "select-spawn"}[r.Intn(6)])
 		}
@@ -216,6 +229,7 @@ func (e *engine) Generate(seed uint64, idx int, tier string, avoid []harness.Fin
 	if c.Scen == "s1" && r.Pct(30) {
 		c.TimeJumpPct = []int{1, 5}[r.Intn(2)]
 	}
+	c.Procs = []int{1, 1, 2, 4, 16}[r.Intn(5)]
 	b, _ := json.Marshal(c)
 	return b
 }
@@ -244,6 +258,7 @@ func (c *Case) program(sfx string) program {
 			}
 		}
 		b.WriteString(")\n")
+		headEnd := b.Len()
 		for p := 0; p < c.P; p++ {
 			sl := ""
 			if c.SleepMs > 0 {
@@ -259,6 +274,7 @@ func (c *Case) program(sfx string) program {
 			}
 			fmt.Fprintf(&b, " (run (progn (dotimes (i %d) (channel-push c (+ %d i))%s) (channel-push pd 1)))\n", c.N, (p+1)*1000, sl)
 		}
+		prodEnd := b.Len()
 		fmt.Fprintf(&b, " (run (progn (dotimes (i %d) (channel-pop pd)) %s (channel-close c) (sim-emit \"closed\")))\n", c.P, quits)
 		for k, kind := range c.Cons {
 			switch kind {
@@ -287,8 +303,11 @@ func (c *Case) program(sfx string) program {
 					float64(c.TimeoutMs)/1000, k)
 			}
 		}
-		b.WriteString(" nil)\n")
-		return program{main: b.String()}
+		text := b.String()
+		if c.ConsFirst {
+			text = text[:headEnd] + text[prodEnd:] + text[headEnd:prodEnd]
+		}
+		return program{main: text + " nil)\n"}
 	case "s2":
 		fmt.Fprintf(&b, "(let ((m (make-mutex)) (n 0) (fin (make-channel 64)))\n")
 		for t := 0; t < c.R; t++ {
@@ -660,6 +679,8 @@ func (c *Case) exec(main string, setup string, sfx string, solo bool) runOut {
 		}
 	}
 	code := lispsim.Read(main)
+	simrt.Procs = c.Procs
+	defer func() { simrt.Procs = 0 }()
 	var tp *tape.Tape
 	if c.Replay || solo {
 		tp = tape.Replay(c.Tape)
@@ -1220,6 +1241,8 @@ func (e *engine) Shrink(raw json.RawMessage) (out []json.RawMessage) {
 		func(n *Case) bool { n.SleepMs = 0; return c.SleepMs > 0 },
 		func(n *Case) bool { n.Nils = false; return c.Nils },
 		func(n *Case) bool { n.TimeJumpPct = 0; return c.TimeJumpPct > 0 },
+		func(n *Case) bool { n.Procs = 16; return c.Procs != 16 },
+		func(n *Case) bool { n.ConsFirst = false; return c.ConsFirst },
 		func(n *Case) bool { n.Cap = 0; return c.Cap > 0 },
 	} {
 		n := clone()
